@@ -1,6 +1,6 @@
 SPECIFICATION Spec
 CONSTANTS
-  Families = {"A1", "B", "C0", "E", "K0"}
+  Families = {"A1", "B", "C0", "E0", "K0"}
 INVARIANT CacheInDatainfo
 INVARIANT ConstantsHold
 PROPERTY DriverOnlyIfAllowed
